@@ -75,11 +75,20 @@ HELPERS = [
     (18, 'entry-reset', 'rules.C01', 'r6', 'C01.R6',
      ['ebusd::DirectProtocolHandler::setState'],
      'the exchange this property describes starts from the state that setState leaves behind on entering ready/skip'),
+    (19, 'arbitration-pair', 'rules.C14', 'r12', 'C14.R12',
+     ['ebusd::EnhancedDevice::handleEnhancedBufferedData', 'ebusd::EnhancedDevice::startArbitration', 'ebusd::EnhancedDevice::cancelRunningArbitration'],
+     'the code of this property starts arbitrations through the enhanced device: a counter left behind refuses every later start'),
+    (20, 'arbitration-counter', 'rules.C14', 'r14', 'C14.R14',
+     ['ebusd::EnhancedDevice::handleEnhancedBufferedData'],
+     'an unanswered arbitration start has to time out, or the pending request is never completed'),
+    (21, 'transport-close', 'rules.C20', 'r19', 'C20.R19',
+     ['ebusd::FileTransport::close'],
+     'after a reconnect the symbols this property works on must not be preceded by stale buffered bytes'),
 ]
 
 
 # for which further properties a helper matters (besides those whose own module runs it)
-RELEVANT = {'layout': ['C06', 'C07', 'C13', 'C15'], 'crc-table': ['C15'], 'address-classes': ['C02', 'C09'], 'errno': ['C19'], 'parseint-prefix': [], 'overflow-threshold': [], 'transport-accounting': ['C01', 'C02'], 'clock': [], 'recv-deadline': ['C14'], 'tolower': ['C16', 'C18'], 'multiline-field': [], 'file-state': ['C19', 'C16'], 'serial-raw': ['C02', 'C14'], 'arbitration-disarm': ['C03'], 'enhanced-decoder': [], 'minus-sign': [], 'type-table': ['C06', 'C07'], 'entry-reset': ['C02', 'C15']}
+RELEVANT = {'layout': ['C06', 'C07', 'C13', 'C15'], 'crc-table': ['C15'], 'address-classes': ['C02', 'C09'], 'errno': ['C19'], 'parseint-prefix': [], 'overflow-threshold': [], 'transport-accounting': ['C01', 'C02'], 'clock': [], 'recv-deadline': ['C14'], 'tolower': ['C16', 'C18'], 'multiline-field': [], 'file-state': ['C19', 'C16'], 'serial-raw': ['C02', 'C14'], 'arbitration-disarm': ['C03'], 'enhanced-decoder': [], 'minus-sign': [], 'type-table': ['C06', 'C07'], 'entry-reset': ['C02', 'C15'], 'arbitration-pair': ['C03', 'C04', 'C20'], 'arbitration-counter': ['C03', 'C04', 'C20'], 'transport-close': ['C14', 'C01']}
 
 
 def share(ctx):
